@@ -58,10 +58,12 @@ def check_slice_run(start: int, stop: int, step: int, n: int, none_at: int) -> b
     pre: (-B.S <= stop <= B.S) or stop == NONE
     pre: (1 <= step <= B.STEP) or step == NONE
     pre: 0 <= n <= B.N
-    pre: -1 <= none_at <= 1
-    pre: h.in_shard((start + B.S + 1) if start != NONE else 0)
+    pre: none_at == n % 3 - 1
+    pre: h.in_shard(2 * ((start + B.S + 1) if start != NONE else 0) + (stop + B.S) % 2)
     post: _
     """
+    # (none_at is tied to the length: flows of length 0, 3, 6.. hold no None,
+    # the others hold None at position 0 or 1)
     a, b, c = _dec(start), _dec(stop), _dec(step)
     xs = _values(n, none_at)
     with patched_deque():
@@ -127,11 +129,13 @@ def check_slice_fill_into(start: int, stop: int, step: int, n: int) -> bool:
     el = _Collect()
     stopped = None
     for i in xs:
+        # a caller may go on offering values after a LenaStopFill: the stop is
+        # final, nothing offered later may be filled
         try:
             s.fill_into(el, i)
         except lena.core.LenaStopFill:
-            stopped = i
-            break
+            if stopped is None:
+                stopped = i
     want = xs[a:b:c]
     if el.got != want:
         return h.ok(False)
@@ -206,7 +210,7 @@ def check_running_chunk(xs: List[int], size: int, kind: int) -> bool:
 
 
 CONDITIONS = [
-    dict(fn="check_slice_run", shards=(10, 16), budget=(80, 1200),
+    dict(fn="check_slice_run", shards=(20, 32), budget=(80, 1200),
          smoke=["check_slice_run(-2, -1, 99, 3, -1)", "check_slice_run(99, 2, 99, 4, 0)",
                 "check_slice_run(-3, 2, 2, 5, 1)", "check_slice_run(99, -2, 99, 5, 1)"]),
     dict(fn="check_slice_forms", shards=(3, 6), budget=(60, 200),
